@@ -29,6 +29,8 @@ pub struct Info {
     pub empty_arrays: u32,
     pub annotated: u32,
     pub constructs: Vec<&'static str>,
+    /// some sibling list is not ordered and disjoint (only error recovery produces this)
+    pub disordered: bool,
 }
 
 fn lo(s: Span<BytePos>) -> u32 {
@@ -168,8 +170,78 @@ impl<'s> Walker<'s> {
         }
     }
 
+    /// siblings must come in source order without overlap, inside their parent
+    fn ordered(&mut self, parent: Span<BytePos>, spans: &[Span<BytePos>]) {
+        let mut prev = lo(parent);
+        for s in spans {
+            if lo(*s) < prev || hi(*s) < lo(*s) || hi(*s) > hi(parent) {
+                self.info.disordered = true;
+            }
+            prev = hi(*s);
+        }
+    }
+
     pub fn expr(&mut self, e: &SpannedExpr<'_, Symbol>) {
         let (elo, ehi) = (lo(e.span), hi(e.span));
+        match &e.value {
+            Expr::App { func, args, .. } => {
+                let mut v = vec![func.span];
+                v.extend(args.iter().map(|a| a.span));
+                self.ordered(e.span, &v);
+            }
+            Expr::IfElse(a, b, c) => self.ordered(e.span, &[a.span, b.span, c.span]),
+            Expr::Array(a) => {
+                let v: Vec<_> = a.exprs.iter().map(|x| x.span).collect();
+                self.ordered(e.span, &v)
+            }
+            Expr::Tuple { elems, .. } => {
+                let v: Vec<_> = elems.iter().map(|x| x.span).collect();
+                self.ordered(e.span, &v)
+            }
+            Expr::Block(xs) => {
+                let v: Vec<_> = xs.iter().map(|x| x.span).collect();
+                self.ordered(e.span, &v)
+            }
+            Expr::Infix { lhs, op, rhs, .. } => self.ordered(e.span, &[lhs.span, op.span, rhs.span]),
+            Expr::Match(s, alts) => {
+                let mut v = vec![s.span];
+                for a in &**alts {
+                    v.push(a.pattern.span);
+                    v.push(a.expr.span);
+                }
+                self.ordered(e.span, &v)
+            }
+            Expr::LetBindings(bs, body) => {
+                let mut v = vec![];
+                for b in bs.iter() {
+                    v.push(b.name.span);
+                    v.extend(b.args.iter().map(|a| a.name.span));
+                    v.push(b.expr.span);
+                }
+                v.push(body.span);
+                self.ordered(e.span, &v)
+            }
+            Expr::Lambda(l) => {
+                let mut v: Vec<_> = l.args.iter().map(|a| a.name.span).collect();
+                v.push(l.body.span);
+                self.ordered(e.span, &v)
+            }
+            Expr::Record { exprs, base, .. } => {
+                let mut v = vec![];
+                for f in &**exprs {
+                    v.push(f.name.span);
+                    if let Some(x) = &f.value {
+                        v.push(x.span);
+                    }
+                }
+                if let Some(b) = base {
+                    v.push(b.span);
+                }
+                self.ordered(e.span, &v)
+            }
+            Expr::Projection(inner, _, _) => self.ordered(e.span, &[inner.span]),
+            _ => {}
+        }
         match &e.value {
             Expr::Ident(id) => {
                 self.info.idents.push((elo, ehi, id.typ.to_string(), "expr"));
@@ -368,7 +440,10 @@ impl Info {
         match self.regions.iter().find(|r| r.name == name) {
             None => "unbound-name".into(),
             Some(_) => {
-                // prefer a region whose own definition contains pos, else nearest
+                // The name alone does not tell which binder the suggestion came from. A binder
+                // whose construct lies before/after the cursor explains it by the known descent
+                // into a neighbour; only if every binder of that name has the cursor inside its
+                // own (non-recursive) definition is it classified as such.
                 let mut best: Option<(&Region, &'static str)> = None;
                 for r in self.regions.iter().filter(|r| r.name == name) {
                     let rel = if pos < r.lo {
@@ -378,7 +453,11 @@ impl Info {
                     } else {
                         "inside-own-definition"
                     };
-                    if best.is_none() || rel == "inside-own-definition" {
+                    let better = match best {
+                        None => true,
+                        Some((_, b)) => b == "inside-own-definition" && rel != "inside-own-definition",
+                    };
+                    if better {
                         best = Some((r, rel));
                     }
                 }
